@@ -1048,9 +1048,22 @@ fn gen_c17(seed: u64, tier: Tier) -> Scenario {
         let e = rng.uniform(3.0, 25.0) * if rng.chance(0.5) { 1.0 } else { -1.0 };
         sc.signal = Signal::Tiny { seed: rng.next(), scale: 10f64.powf(e) };
     }
+    if sc.config.kind.is_sinc() && sc.config.kernel == Kernel::Auto && rng.chance(0.15) {
+        // the run-time dispatch picks another kernel (same simulated CPU for both twins)
+        sc.config.cpu_mask = *rng.pick(&[2u8, 4, 6, 7]);
+    }
     let n = ops_budget(&sc.config, tier_budget(tier) * 0.5, 5, q(tier, 50, 120), &mut rng);
     let m = OpMix::swarm(&mut rng, n);
-    let (p, ops, t) = gen_history(&mut rng, &sc.config, &m);
+    let (p, mut ops, t) = gen_history(&mut rng, &sc.config, &m);
+    if sc.config.kind.is_async() && rng.chance(0.3) {
+        // control decisions at and next to the exact bounds (f64 neighbours that coincide with the bound in f32)
+        for _ in 0..rng.usize_in(1, 4) {
+            let k = *rng.pick(&[0i8, 1, -1, 2, -2, 3]);
+            let val = if rng.chance(0.5) { CtlVal::UpperUlp(k) } else { CtlVal::LowerUlp(k) };
+            let at = rng.usize_in(0, ops.len());
+            ops.insert(at, Op::BadRatio { val, ramp: rng.chance(0.5), relative_api: rng.chance(0.5) });
+        }
+    }
     sc.profile = format!("{}+f32-twin", p);
     sc.sim_seconds = t;
     sc.ops = ops;
@@ -1651,6 +1664,14 @@ fn gen_c15(seed: u64, tier: Tier) -> Scenario {
         if sc.config.oversampling == 1 && sc.config.interp >= 2 {
             sc.config.interp = 1;
         }
+    }
+    if rng.chance(0.004) {
+        // oversampling factors beyond 2^15 (sub-filter indices with bit 15 or more set, tables beyond 2^20 vectors)
+        sc.config.oversampling = rng.log_usize(32_769, 300_000);
+        sc.config.sinc_len = 8 * rng.usize_in(1, 3);
+        sc.config.chunk = sc.config.chunk.min(64);
+        sc.config.channels = 1;
+        sc.config.mask = None;
     }
     if rng.chance(0.006) {
         // the degenerate multiple of 8: no taps, every kernel returns 0 and reads nothing (SincFixedIn with a 1- or
